@@ -50,6 +50,17 @@ def oneshot(total):
 
 
 def run_history(writes, fin, log=None, probes=None, as_type="bytes"):
+    """executes one history under a wall-clock backstop (a blocker that never returns is a verdict, not a
+    stuck worker)"""
+    from ..steps import WallLimit, StepBudgetExceeded
+    try:
+        with WallLimit(20.0):
+            return _run_history(writes, fin, log, probes, as_type)
+    except StepBudgetExceeded as ex:
+        return b"", sum(writes), ("DidNotTerminate", str(ex)[:120]), SimFile()
+
+
+def _run_history(writes, fin, log=None, probes=None, as_type="bytes"):
     """executes one history; returns (image, total bytes, error).  as_type: the bytes-like type handed to
     write() - bytes, bytearray or memoryview (the file API accepts any of them)"""
     m = sut.load()
